@@ -39,15 +39,19 @@ def make_toy(cap):
             self.k = k
 
     class Toy:
+        body_runs = 0  # how often a method body was executed: a call that does not execute it was served from the cache
+
         def __init__(self, payload):
             self.payload = payload
 
         @weak_lru_cache(maxsize=cap)
         def compute(self, k):
+            Toy.body_runs += 1
             return (self.payload, k)
 
         @weak_lru_cache(maxsize=cap)
         def selfref(self, k):
+            Toy.body_runs += 1
             return Holder(self, k)
 
     return Toy
@@ -82,7 +86,11 @@ def run_toy(out: Outcome, ops, nobj, cap, selfref, tag):
     """Run one op sequence on a fresh Toy class; compare with the Lean model step by step."""
     Toy = make_toy(cap)
     method = Toy.selfref if selfref else Toy.compute
-    lru = lru_of(method)
+    try:
+        lru = lru_of(method)
+    except RuntimeError:
+        lru = None  # another cache implementation: hits are still observable (the body does not run), the entry count is not
+        out.count('cache-internals-not-functools-lru')
     objs = {}
     dead = set()
     watchers = {}
@@ -106,12 +114,13 @@ def run_toy(out: Outcome, ops, nobj, cap, selfref, tag):
             observed.append('-')
         else:
             _, k, arg = op
-            before = lru.cache_info()
-            val = (Toy.selfref if selfref else Toy.compute)(objs[k], arg)
-            after = lru.cache_info()
-            hit = after.hits - before.hits == 1
+            runs_before = Toy.body_runs
+            # odd arguments are passed by keyword, even ones by position (one spelling per value: functools keys the two apart)
+            fn_ = Toy.selfref if selfref else Toy.compute
+            val = fn_(objs[k], k=arg) if arg % 2 else fn_(objs[k], arg)
+            hit = Toy.body_runs == runs_before
             tokens.append(f'c {k} {arg}')
-            observed.append(f'{"h" if hit else "m"}:{after.currsize}')
+            observed.append(f'{"h" if hit else "m"}:{lru.cache_info().currsize if lru is not None else "?"}')
             # property: the cached call returns what an uncached recomputation returns, for THIS object
             if selfref:
                 ok = val.owner is objs[k] and val.k == arg
@@ -130,6 +139,8 @@ def run_toy(out: Outcome, ops, nobj, cap, selfref, tag):
     model_ops = [t if t == '-' else t.split(':')[0] + ':' + t.split(':')[2] for t in res[1:bar]]
     model_alive = res[bar + 1:]
     out.evaluations += 1
+    if lru is None:
+        model_ops = [t if t == '-' else t.split(':')[0] + ':?' for t in model_ops]
     if model_ops != observed:
         first = next(i for i, (a, b) in enumerate(zip(model_ops, observed)) if a != b)
         out.fail('correspondence', 'hit-miss-trace', case, expected=model_ops[first], observed=observed[first],
@@ -148,7 +159,7 @@ def run_toy(out: Outcome, ops, nobj, cap, selfref, tag):
             out.fail('correspondence', 'liveness', case, expected='alive' if want_alive else 'dead',
                      observed='dead' if is_dead else 'alive', note=f'object {k}')
     reuse = len(set(addrs.values())) < len(addrs)
-    evict = any(int(t.split(':')[1]) == cap and t[0] == 'm' for t in observed if t != '-')
+    evict = any(t.split(':')[1] != '?' and int(t.split(':')[1]) == cap and t[0] == 'm' for t in observed if t != '-')
     if reuse or evict:
         out.nontrivial.add(json.dumps(case['ops']) + str(cap) + str(selfref))
     if reuse:
@@ -179,7 +190,7 @@ def values_equal(a, b):
 
 REAL_METHODS = {
     'Transitions': [('matrix', ()), ('states_next', ()), ('states_prev', ())],
-    'Jumps': [('matrix', ()), ('_counter', ()), ('counter', ()), ('jump_diffusivity', (3,)), ('jump_diffusivity', (2,))],
+    'Jumps': [('matrix', ()), ('_counter', ()), ('counter', ()), ('jump_diffusivity', (3,)), ('jump_diffusivity', (2,)), ('rates', (2,)), ('rates', (1,))],
     'TrajectoryMetrics': [('speed', ()), ('particle_density', ()), ('mol_per_liter', ()), ('amplitudes', ()),
                           ('vibration_amplitude', ()), ('attempt_frequency', ())],
 }
@@ -188,9 +199,16 @@ REAL_METHODS = {
 def run_real(out: Outcome, rng, with_collective):
     """two real systems side by side: cached == uncached for each, results never swapped, objects die when dropped"""
     systems = []
-    for _ in range(2):
+    twin = bool(rng.integers(2))
+    for n_sys in range(2):
         for _try in range(20):
-            case = c05.build_system(rng, T=int(rng.integers(6, 20)), A=2, n_sites=3, inner=False)
+            if n_sys == 1 and twin and systems:
+                # a TWIN of the first system, alive at the same time: same events and site geometry, other site labels, time step and
+                # temperature (the same run re-analysed with relabelled sites / a corrected time step)
+                c0 = systems[0][0]
+                case = {**c0, 'labels': [('M' + lab[1:]) if k % 2 else 'Q0' for k, lab in enumerate(c0['labels'])], 'time_step': 5e-15, 'temperature': 800.0}
+            else:
+                case = c05.build_system(rng, T=int(rng.integers(6, 20)), A=2, n_sites=3, inner=False)
             try:
                 tr, s, i = c05.realise(case)
                 j = Jumps(tr)
@@ -202,6 +220,8 @@ def run_real(out: Outcome, rng, with_collective):
         return
     out.evaluations += 1
     case = {'real': [s[0] for s in systems], 'with_collective': with_collective}
+    if twin:
+        out.count('real-twin-systems')
     watch = {}
     dead = set()
     for n, (_, tr, j, m) in enumerate(systems):
